@@ -74,48 +74,65 @@ def stack_feats(c):
 def run(chk):
     thorough = chk.tier == "thorough"
     W, tlc = chk.workdir, chk.tlc
-    # ---------------- level 1
-    tcases = []
+    # ---------------- level 1 (streamed: the 4-operation family is several gigabytes of cases; nothing is held in memory)
+    fin = os.path.join(W, "track_ops.in.ndjson")
+    nt = [0]
+    sample_case = []
+    fh = open(fin, "w")
+
+    def on_case(c):
+        c["id"] = nt[0]
+        if nt[0] == 7:
+            sample_case.append(c)
+        nt[0] += 1
+        fh.write(json.dumps(c, separators=(",", ":")) + "\n")
     for kind in ("wire", "rail"):
         cfg = os.path.join(W, f"tracks_{kind}.cfg")
         mo = 4 if (thorough and kind == "wire") else 3
         open(cfg, "w").write(f'SPECIFICATION Spec\nCONSTANTS Span = 8  MaxOps = {mo}  CoordSet = "small"  Kind = "{kind}"\n'
                              "INVARIANTS Tiling Emit\nPROPERTY EffectOK\nCHECK_DEADLOCK FALSE\n")
-        r = tlc.check(os.path.join(D, "MC_Tracks.tla"), cfg, timeout=14400, mem="16g")
+        r = tlc.check(os.path.join(D, "MC_Tracks.tla"), cfg, timeout=14400, mem="16g", on_case=on_case)
         chk.add_tlc(f"MC_Tracks {kind} track, all sequences of {mo} operations", r)
         chk.tlc_must_pass("MC_Tracks", r)
-        tcases += r.cases
     if thorough:
         cfg = os.path.join(W, "tracks_full.cfg")
         open(cfg, "w").write('SPECIFICATION Spec\nCONSTANTS Span = 6  MaxOps = 2  CoordSet = "full"  Kind = "wire"\nINVARIANTS Tiling Emit\nPROPERTY EffectOK\nCHECK_DEADLOCK FALSE\n')
-        r = tlc.check(os.path.join(D, "MC_Tracks.tla"), cfg, timeout=7200)
+        r = tlc.check(os.path.join(D, "MC_Tracks.tla"), cfg, timeout=7200, on_case=on_case)
         chk.add_tlc("MC_Tracks every integer coordinate -1..7, 2 operations", r)
         chk.tlc_must_pass("MC_Tracks full", r)
-        tcases += r.cases
-    for i, c in enumerate(tcases):
-        c["id"] = i
-    chk.require(len(tcases) > 100000, f"only {len(tcases)} track sequences")
-    res = vlib.harness("track_ops", tcases, W, timeout_ms=20000)
-    for c, q in zip(tcases, res):
-        chk.cov["evaluations"] += 1
-        if q.get("outcome") != "ok":
-            chk.violation(f"track-{q.get('outcome')}", "tracks::Track", {"ops": [h["op"] for h in c["hist"]]}, {"msg": q.get("msg"), "loc": q.get("loc")})
-            continue
-        for k, (h, st) in enumerate(zip(c["hist"], q["steps"])):
-            want_ok = h["outcome"] == "ok"
-            got_ok = st["outcome"] == "ok"
-            op = h["op"]
-            neg = op["op"] in ("cut", "block") and op["a"] < 0
-            if want_ok != got_ok:
-                klass = ("out-of-range-start-accepted" if (neg and got_ok) else ("valid-operation-rejected" if want_ok else "invalid-operation-accepted:" + h["outcome"]))
-                chk.violation(f"{klass}:{op['op']}", "tracks::Track::cut_or_block" if op["op"] != "setnet" else "tracks::Track::set_net",
-                              {"ops": [x["op"] for x in c["hist"][:k + 1]], "kind": c["kind"]}, {"model": h["outcome"], "code": st["outcome"]})
-                break
-            if canon_segs(h["segs"]) != canon_segs(st["segs"]):
-                chk.violation(f"tiling-differs:{op['op']}", "tracks::Track", {"ops": [x["op"] for x in c["hist"][:k + 1]], "kind": c["kind"]},
-                              {"model": canon_segs(h["segs"]), "code": canon_segs(st["segs"])})
-                break
-    chk.sample({"track_ops": [h["op"] for h in tcases[7]["hist"]], "model_after_each": [[h["outcome"], canon_segs(h["segs"])] for h in tcases[7]["hist"]]})
+    fh.close()
+    chk.require(nt[0] > 100000, f"only {nt[0]} track sequences")
+    nres = 0
+    with open(fin) as fcases:
+        for line, q in zip(fcases, vlib.harness_file("track_ops", fin, W, timeout_ms=20000)):
+            c = json.loads(line)
+            nres += 1
+            if "id" in q and q["id"] != c["id"]:
+                raise vlib.ToolError(f"track_ops: result {q.get('id')} does not belong to case {c['id']}")
+            chk.cov["evaluations"] += 1
+            if q.get("outcome") != "ok":
+                chk.violation(f"track-{q.get('outcome')}", "tracks::Track", {"ops": [h["op"] for h in c["hist"]]}, {"msg": q.get("msg"), "loc": q.get("loc")})
+                continue
+            for k, (h, st) in enumerate(zip(c["hist"], q["steps"])):
+                want_ok = h["outcome"] == "ok"
+                got_ok = st["outcome"] == "ok"
+                op = h["op"]
+                neg = op["op"] in ("cut", "block") and op["a"] < 0
+                if want_ok != got_ok:
+                    klass = ("out-of-range-start-accepted" if (neg and got_ok) else ("valid-operation-rejected" if want_ok else "invalid-operation-accepted:" + h["outcome"]))
+                    chk.violation(f"{klass}:{op['op']}", "tracks::Track::cut_or_block" if op["op"] != "setnet" else "tracks::Track::set_net",
+                                  {"ops": [x["op"] for x in c["hist"][:k + 1]], "kind": c["kind"]}, {"model": h["outcome"], "code": st["outcome"]})
+                    break
+                if canon_segs(h["segs"]) != canon_segs(st["segs"]):
+                    chk.violation(f"tiling-differs:{op['op']}", "tracks::Track", {"ops": [x["op"] for x in c["hist"][:k + 1]], "kind": c["kind"]},
+                                  {"model": canon_segs(h["segs"]), "code": canon_segs(st["segs"])})
+                    break
+    if nres != nt[0]:
+        raise vlib.ToolError(f"track_ops: {nres} results for {nt[0]} cases")
+    chk.sample({"track_ops": [h["op"] for h in sample_case[0]["hist"]], "model_after_each": [[h["outcome"], canon_segs(h["segs"])] for h in sample_case[0]["hist"]]})
+    for fn in (fin, os.path.join(W, "track_ops.out.ndjson")):
+        if thorough and os.path.exists(fn):
+            os.remove(fn)          # several gigabytes
 
     # ---------------- unbounded argument (Apalache): Tiling is inductive for ANY span and ANY integer arguments
     apa = os.path.join(SPECS, "apalache", "TracksInd.tla")
@@ -181,7 +198,7 @@ def run(chk):
     st = json.loads(json.dumps(ccases[k])); st["rects_period"][0]["rect"][0] += 1; st["rects_track"] = st["rects_period"]
     q = vlib.harness("tetris_compile", [{"id": 0, "stack": st["stack"], "cell": st["cell"]}], W, tag="selftest")[0]
     chk.require(q["outcome"] == "ok" and canon_rects(q["rects"]) != canon_rects(st["rects_period"]), "comparison did not notice an altered expectation")
-    chk.cov["distinct_nontrivial"] = len(tcases) + len(ccases)
+    chk.cov["distinct_nontrivial"] = nt[0] + len(ccases)
     return chk.finish(
         "model_checking",
         rule="level 1: every sequence of 3 (wire: 4 in thorough) operations from {cut, block} x pairs a<b over {-1,0,2,3,5,8,9} and set_net at those "
